@@ -178,10 +178,25 @@ func restProject(t *rapid.T, rule RuleSpec, m proto.Message, label string) {
 			cur = cur.Mutable(fd).Message()
 		}
 		if leaf.Kind() != protoreflect.StringKind {
-			if leaf.Kind() == protoreflect.EnumKind {
-				continue
+			// a path variable always sets its field: the original must have it present too
+			switch {
+			case leaf.Kind() == protoreflect.MessageKind:
+				sub := cur.Mutable(leaf).Message()
+				if vf := sub.Descriptor().Fields().ByName("value"); vf != nil && vf.Kind() == protoreflect.BytesKind && len(sub.Get(vf).Bytes()) == 0 {
+					sub.Set(vf, protoreflect.ValueOfBytes([]byte{1, 2, 3}))
+				}
+				if vf := sub.Descriptor().Fields().ByName("value"); vf != nil && vf.Kind() == protoreflect.StringKind && sub.Get(vf).String() == "" {
+					sub.Set(vf, protoreflect.ValueOfString(genSegValue(t, label+"_wseg", true)))
+				}
+				if sub.Descriptor().FullName() == "google.protobuf.FieldMask" && sub.Get(sub.Descriptor().Fields().ByName("paths")).List().Len() == 0 {
+					sub.Mutable(sub.Descriptor().Fields().ByName("paths")).List().Append(protoreflect.ValueOfString("foo_bar"))
+				}
+			case leaf.Kind() == protoreflect.BytesKind && len(cur.Get(leaf).Bytes()) == 0:
+				cur.Set(leaf, protoreflect.ValueOfBytes([]byte{0xfb, 0xff, 0x3e}))
+			case leaf.HasPresence() && !cur.Has(leaf):
+				cur.Set(leaf, cur.Get(leaf))
 			}
-			continue // numeric text forms are never empty
+			continue // other text forms are never empty
 		}
 		end := v.End
 		if end == -1 {
